@@ -146,7 +146,7 @@ struct Explorer {
     if (on(EV_FAULT) && b.dev < maxdev) {
       for (int site : f.faults) {
         if (w.fault[site]) continue;
-        v.push_back(mk(EV_FAULT, site));
+        for (int skip : f.fault_skips) v.push_back(mk(EV_FAULT, site, skip));
       }
     }
     if (on(EV_SRCADDR) && b.n[EV_SRCADDR] < 1) v.push_back(mk(EV_SRCADDR, w.src_variant ? 0 : 1));
